@@ -700,7 +700,9 @@ type content struct {
 // pool of valid files sharing a few origin/destination pairs, so that merging really groups
 type pool struct {
 	heads []ach.FileHeader
-	files []content
+	// JSON documents of files valid only under the validateOpts member they carry (no side-car involved)
+	optsJSON []string
+	files    []content
 	empty content // a file without batches: parses only with allowZeroBatches
 }
 
@@ -740,6 +742,17 @@ func newPool(r *rng.R, n int) *pool {
 			continue
 		}
 		p.files = append(p.files, content{t, string(j)})
+		if len(p.optsJSON) < 6 {
+			if g, _ := gen.NeedsOpts(r, f); g != nil && g.GetValidation() != nil && g.GetValidation().CheckTransactionCode == nil {
+				if gj, err := json.Marshal(g); err == nil {
+					_, e1 := ach.FileFromJSON(gj)
+					_, e2 := ach.FileFromJSONWith(gj, &ach.ValidateOpts{})
+					if e1 == nil && e2 != nil {
+						p.optsJSON = append(p.optsJSON, string(gj))
+					}
+				}
+			}
+		}
 	}
 	// header + control only
 	f := ach.NewFile()
@@ -923,6 +936,9 @@ func genCase(r *rng.R, p *pool, g genOpts) *Case {
 				}
 			case ach.AcceptAsJSON:
 				data = pick().jsonT
+				if len(p.optsJSON) > 0 && r.Chance(1, 5) {
+					data = p.optsJSON[r.Intn(len(p.optsJSON))] // valid under the options the document itself carries
+				}
 				if bad && r.Chance(1, 3) {
 					if r.Bool() {
 						data = p.badJSON(r)
